@@ -395,6 +395,8 @@ class Exec:
                         pass
                 remote.die_with_parent()
                 rs = remote.RemoteSched(cmd_r, msg_w, tid, name, group, ("worker", group.gid, tid))
+                if self.plan["knobs"].get("gc"):
+                    rs.gc_rng, rs.gc_prob = random.Random(self.plan["seed"] ^ 0x6C6C ^ (tid << 8)), float(self.plan["knobs"]["gc"])
                 WORLD.sched = rs
                 WORLD.remote = rs
                 WORLD.clock = remote.RemoteClock(rs, None)
@@ -702,7 +704,12 @@ class Exec:
         lt = ("panoptica_aggregator.py",) if k.get("line_preempt") and k.get("mode") == "threads" else ()
         self.parent_fds = []
         self.child_pids = []
+        if k.get("gc"):
+            s_gc = random.Random(self.plan["seed"] ^ 0x6C6C ^ pi)
+        else:
+            s_gc = None
         s = Scheduler(self.chooser, budget=k.get("budget", 400000), line_trace_files=lt)
+        s.gc_rng, s.gc_prob = s_gc, float(k.get("gc") or 0.0)
         if k.get("relpath") is not None:
             os.chdir(self.work)
         self.sched = s
